@@ -25,7 +25,7 @@ def run(tier, seed):
     r2 = vlib.run_tlc("MC_Wire", MC % '{"bucket_vec"}', wd, "mc_dev", workers=4, timeout=300)
     vlib.require(r2["error"] and "Deterministic" in r2["error"], "Wire spec lost its sensitivity to a raw-iteration container")
     tr = os.path.join(wd, "trace.ndjson")
-    nlists, children = (6, 3) if tier == "quick" else (30, 12)
+    nlists, children = (6, 3) if tier == "quick" else (160, 24)
     out = vlib.run_harness(["record", "c09", tr, str(seed), str(nlists), str(children), wd], timeout=3000)
     summ = json.loads(out)
     rt, done, mism = vlib.trace_validate("Trace_C09", tr, wd, "trace")
